@@ -123,7 +123,7 @@ def forbidden_tokens():
 
 
 def theorem_names(prop: str):
-    """Names of the theorems declared in Props/<prop>.lean (with namespace)."""
+    """Names of the theorems declared in Props/<prop>.lean (with namespace).  `prop` may also be `CxxSrc`."""
     path = os.path.join(LEAN, 'Props', prop + '.lean')
     src = strip_comments(open(path).read())
     ns = []
@@ -149,13 +149,13 @@ def lake_build(targets, timeout=3000):
     return rc == 0, (out + err), time.time() - t0
 
 
-def lean_audit(prop: str):
+def lean_audit(prop: str, with_src=False):
     """#print axioms for every theorem in Props/<prop>.lean.
     Returns (ok, {theorem: [axioms]}, log)."""
-    names = theorem_names(prop)
+    names = theorem_names(prop) + (theorem_names(prop + 'Src') if with_src else [])
     if not names:
         return False, {}, 'no theorems found in Props/%s.lean' % prop
-    src = 'import Props.%s\n' % prop + ''.join('#print axioms %s\n' % n for n in names)
+    src = 'import Props.%s\n' % (prop + 'Src' if with_src else prop) + ''.join('#print axioms %s\n' % n for n in names)
     tmp = os.path.join(LEAN, '.audit_%s_%d.lean' % (prop, os.getpid()))
     open(tmp, 'w').write(src)
     try:
@@ -442,6 +442,36 @@ def _lean_side(rep: Report, prop: str, regen=None):
         rep.notes.append('reviewer examples that no longer elaborate against the current source: ' + ', '.join(audit_failed))
     rep.coverage['lake_build_s'] = round(secs, 1)
     names = theorem_names(prop)
+    # SECOND TIE (Props/<prop>Src.lean, where it exists): statements that the hand-written model equals the formulas a
+    # small translator re-reads from the current source.  A translator that does not recognise the shape of the source
+    # makes the second tie UNAVAILABLE (recorded; the run-time correspondence still ties model and code, as it does for
+    # every other property); a translator that succeeds while a statement fails means a formula changed its value.
+    with_src = False
+    src_mod = 'Props.%sSrc' % prop
+    if ok and os.path.exists(os.path.join(LEAN, 'Props', prop + 'Src.lean')):
+        try:
+            st = json.load(open(os.path.join(LEAN, 'Gen', 'regen_status.json')))
+        except Exception:
+            st = {'status': {}, 'outputs': {}}
+        sdeps = lean_imports(src_mod)
+        bad_gen = {g: v for g, v in st['status'].items()
+                   if v != 'ok' and any(m in sdeps for m in st['outputs'].get(g, []))}
+        if bad_gen:
+            why2 = '; '.join('%s: %s' % kv for kv in bad_gen.items())
+            rep.coverage['second_tie'] = {'status': 'unavailable', 'why': why2[:400]}
+            rep.notes.append('second tie unavailable (the source-reading translator does not recognise the current '
+                             'shape of the source: %s); the run-time correspondence is what ties model and code in this run' % why2[:200])
+        else:
+            ok2, log2, secs2 = lake_build([src_mod])
+            if ok2:
+                with_src = True
+                names = names + theorem_names(prop + 'Src')
+                rep.coverage['second_tie'] = {'status': 'checked', 'theorems': theorem_names(prop + 'Src')}
+            else:
+                errs2 = [l for l in log2.splitlines() if 'error' in l][:6]
+                rep.coverage['second_tie'] = {'status': 'BROKEN', 'errors': errs2}
+                reasons.append('second tie: a formula read from the current source no longer equals the model (lake build %s failed: %s)'
+                               % (src_mod, ' | '.join(errs2)))
     rep.obligations = len(names)
     if not ok:
         errs = [l for l in log.splitlines() if 'error' in l][:8]
@@ -451,14 +481,14 @@ def _lean_side(rep: Report, prop: str, regen=None):
     bad = forbidden_tokens()
     if bad:
         reasons.append('forbidden tokens: ' + '; '.join(bad[:5]))
-    aok, axioms, alog = lean_audit(prop)
+    aok, axioms, alog = lean_audit(prop, with_src)
     rep.coverage['theorems'] = {n: axioms.get(n, 'MISSING') for n in names}
     if not aok:
         reasons.append('axiom audit failed: ' + alog[-500:])
     rep.discharged = sum(1 for n in names if n in axioms and set(axioms[n]) <= ALLOWED_AXIOMS) \
         if not bad else 0
     if rep.tier == 'thorough':
-        rc, out, err = sh(['lake', 'env', 'leanchecker', 'Props.' + prop], cwd=LEAN, timeout=3000)
+        rc, out, err = sh(['lake', 'env', 'leanchecker', 'Props.' + prop] + ([src_mod] if with_src else []), cwd=LEAN, timeout=3000)
         rep.coverage['leanchecker'] = 'ok' if rc == 0 else ('FAILED: ' + (out + err)[-300:])
         if rc != 0:
             reasons.append('leanchecker failed')
